@@ -16,7 +16,7 @@ CMPOPS = ["<", ">", "<=", ">=", "==", "!=", "in", "not in", "is", "is not"]
 AUGOPS = ["+=", "-=", "*=", "/=", "//=", "%=", "@=", "**=", "<<=", ">>=", "&=", "|=", "^="]
 UNOPS = ["-", "+", "~", "not "]
 
-INTS = ["0", "1", "7", "42", "1_000", "0x1F", "0XaB_c", "0o17", "0O7_7", "0b101", "0B1_0", "00", "0_0", "123456789012345678901234567890", "9_9"]
+INTS = ["0x_ff", "0B_1", "0o_644", "0X_A_b", "0", "1", "7", "42", "1_000", "0x1F", "0XaB_c", "0o17", "0O7_7", "0b101", "0B1_0", "00", "0_0", "123456789012345678901234567890", "9_9"]
 FLOATS = ["1.", ".5", "1.5", "1e5", "1E-5", "1.5e+10", "1_0.0_1e-1_0", "0.0", "1e0", "3.14_15", "0e0", "1.e3", ".0_1"]
 IMAGS = ["1j", "1.5J", "1e3j", ".5j", "0j", "1_0j", "1.J"]
 
